@@ -19,7 +19,7 @@ def run(ctx):
             # Loc-RIB paths that rank equal and differ in one attribute only - some of them have the same exported form (source, next hop
             # and LOCAL_PREF do not show towards an eBGP peer), others differ in what is exported (communities, AS_PATH contents):
             # replacing one by the other and removing one of two must hit the right stored path
-            ("gen near-identical paths", dict(base, Names={"d0", "dSrc", "dLp", "dComm", "dAsp", "dAggr"}, Sessions={"ebgp", "ibgpRR", "ebgpAP", "ibgpRRAP"},
+            ("gen near-identical paths", dict(base, Names={"d0", "dSrc", "dLp", "dComm", "dAsp", "dAggr", "dOtc", "dUnk"}, Sessions={"ebgp", "ibgpRR", "ebgpAP", "ibgpRRAP"},
                                               Pols={"accept"}, MaxDepth=4), ro.PFX1),
             # RFC 9234 roles: routes with and without OTC towards every remote role
             ("gen roles", dict(base, Names={"e1", "ot"}, Sessions={"toCustomer", "toPeer", "toProvider", "toRS", "toRSClient"}, Pols={"accept"},
